@@ -98,8 +98,13 @@ def check_program(run: common.Run, node: Tuple, env: Dict[str, Tuple[str, Any]],
 
             c = localize.culprit(node, disagree)
             ce, cg = ref_outcome(c, renv), celpy_outcome(c, binds, r)
-            is_has = r == "C" and (localize.has_operand(c) or localize.python_bool_from_has(c, lambda sub: cel.evaluate(ir.render(sub), binds, "C")))
+            is_has = r == "C" and (localize.has_operand(c) or localize.python_bool_from_has(c, lambda sub: cel.evaluate(ir.render(sub), binds, "C"))
+                                   or localize.has_bool_is_root_cause(c, lambda w: celpy_outcome(w, binds, "C") == ref_outcome(c, renv)))
             tag = "has-operand" if is_has else detail_tag(c, renv)
+            if not tag and r == "C" and ce == ("error",) and cg[0] == "value" and c[0] in ("list", "map", "call", "method", "macro", "index", "select") and any(
+                ref_outcome(ch, renv) == ("error",) for ch in localize.closed_children(c)
+            ):
+                tag = "error-operand"
             key = f"{r}-{localize.describe(c)}{'-' + tag if tag else ''}-{mode_of(ce, cg)}"
             used = sorted({x[1] for x in ir.walk(node) if x[0] == "var"})
             report(key, {"src": src, "node": node, "env": {k: list(v) for k, v in env.items() if k in used}, "route": r, "culprit": ir.render(c)},
